@@ -93,6 +93,7 @@ func RunInProcess(root string, scripts []ScriptFile, o RunOpts) RunResult {
 	p.Files = nil
 	for _, s := range scripts {
 		f := filepath.Join(sdir, s.Name+".txt")
+		os.MkdirAll(filepath.Dir(f), 0o777) // names may contain directories (scripts with equal base names)
 		os.WriteFile(f, s.Data, 0o666)
 		p.Files = append(p.Files, f)
 	}
